@@ -120,7 +120,9 @@ def run(c):
     out1 = os.path.join(c.scratch, "replay.ndjson"); out2 = os.path.join(c.scratch, "record.ndjson")
     c.run_driver(drv, ["replay", cp, out1], timeout=1800)
     c.run_driver(drv, ["record", out2], timeout=1800)
-    allev = read_ndjson(out1) + read_ndjson(out2)
+    ev1 = read_ndjson(out1)
+    # (histories are left out of the second pass: their events only mean something in sequence)
+    allev = ev1 + read_ndjson(out2) + [x for x in c.second_pass(drv, ["replay", cp, os.path.join(c.scratch, "replayT.ndjson")], os.path.join(c.scratch, "replayT.ndjson"), ev1, timeout=1800) if not is_hist(x)]
     events = [ln for ln in allev if not is_hist(ln)]
     hevents = [ln for ln in allev if is_hist(ln)]
     # ---- stage C
